@@ -44,4 +44,9 @@ def nernst_potential(
         F = constants.Faraday_constant
         R = constants.molar_gas_constant
 
-    return (R * T) / (charge * F) * backend.log(ion_conc_out / ion_conc_in)
+    ratio = ion_conc_out / ion_conc_in
+    try:
+        ratio = ratio.simplified  # e.g. (mol/m3)/molar -> dimensionless number
+    except AttributeError:
+        pass
+    return (R * T) / (charge * F) * backend.log(ratio)
